@@ -57,7 +57,7 @@ func (C03) Meta() core.Meta {
 		Real:        []string{"filippo.io/age Decrypt", "internal/format Parse", "X25519/scrypt/ssh identities", "headerMAC"},
 		Stub:        []string{"ciphertext source", "stored header image (edited copy of what SimDisk recorded)", "crypto/rand.Reader (tape)", "byzantine editor (reference writer without the key)"},
 		FaultKinds:  []string{"fault.flip", "fault.insert", "fault.delete", "fault.subst", "fault.wdrop", "fault.wdup", "fault.wswap", "fault.type", "fault.arg", "fault.argdel", "fault.argadd", "fault.body", "fault.bodylen", "fault.grease_insert", "fault.stanza_delete", "fault.stanza_dup", "fault.permute", "fault.mac_random", "fault.mac_otherkey", "fault.eol_cr", "fault.eol_crlf_all", "fault.eol_space", "fault.eol_blank", "fault.eol_join", "fault.sep_tab", "fault.sep_double", "fault.ins_str"},
-		Probes:      []string{"probe.edit_in_other_recipients_stanza", "probe.still_parseable", "probe.unparseable", "probe.trivial_same_image", "probe.rejected_bad_mac", "probe.rejected_no_match", "probe.bufio_reuse_path", "probe.bufio_rewrap_path", "probe.fault_landed_in_payload", "probe.identity_list_alone", "probe.identity_list_first-of-two", "probe.identity_list_last-of-two"},
+		Probes:      []string{"probe.edit_in_other_recipients_stanza", "probe.still_parseable", "probe.unparseable", "probe.trivial_same_image", "probe.rejected_bad_mac", "probe.rejected_no_match", "probe.bufio_reuse_path", "probe.bufio_rewrap_path", "probe.fault_landed_in_payload", "probe.identity_list_alone", "probe.identity_list_first-of-two", "probe.identity_list_last-of-two", "probe.honest_file_after_the_edited_ones"},
 	}
 }
 
@@ -347,7 +347,19 @@ func applyHeaderEdit(e *HeaderEdit, F []byte, l *lib.Layout, disk *seam.SimDisk,
 	return join(ref.MarshalHeader(h)), true
 }
 
+// Execute runs the edited headers and then lets the same identity objects open the unedited file once more.
 func (e C03) Execute(plan interface{}, c *core.Ctx) *core.Verdict {
+	var after func() *core.Verdict
+	if v := e.exec(plan, c, &after); v != nil {
+		return v
+	}
+	if after != nil {
+		return after()
+	}
+	return nil
+}
+
+func (e C03) exec(plan interface{}, c *core.Ctx, after *func() *core.Verdict) *core.Verdict {
 	p := plan.(*C03Plan)
 	spec := p.File
 	spec.Armor = false
@@ -391,6 +403,24 @@ func (e C03) Execute(plan interface{}, c *core.Ctx) *core.Verdict {
 			break
 		}
 	}
+	// identity objects live for the whole run (one per key): what an edited header does to them is part of the case
+	idObjs := map[string]age.Identity{}
+	idOf := func(k world.Key) age.Identity {
+		if idObjs[k.String()] == nil {
+			idObjs[k.String()] = world.Identity(k)
+		}
+		return idObjs[k.String()]
+	}
+	*after = func() *core.Verdict {
+		for _, k := range openers {
+			res := lib.Decrypt(seam.NewSource(F, seam.Delivery{Mode: "whole"}, nil, nil).Reader(), false, []age.Identity{idOf(k)}, lib.ReadSched{Mode: "all"}, nil)
+			c.Stats.Inc("probe.honest_file_after_the_edited_ones")
+			if !res.Clean() || !bytes.Equal(res.Released, spec.Plain()) {
+				return core.Fail("C03.poisoned_next", "after the edited headers were rejected, the unedited file opened with the same identity object (%s) gives %d bytes, %s", k, len(res.Released), res.ErrText())
+			}
+		}
+		return nil
+	}
 	shapeCtr := p.Delivery.Bufio + len(p.File.Recips) // deterministic starting point
 	check := func(ed *HeaderEdit) *core.Verdict {
 		img, ok := applyHeaderEdit(ed, F, l, disk, keys[0])
@@ -419,14 +449,14 @@ func (e C03) Execute(plan interface{}, c *core.Ctx) *core.Verdict {
 		shapeCtr++
 		for oi, k := range openers {
 			// the identity able to open the file, alone or next to identities that match nothing
-			ids := []age.Identity{world.Identity(k)}
+			ids := []age.Identity{idOf(k)}
 			shape := "alone"
 			switch (shapeCtr + oi) % 3 {
 			case 1:
-				ids = append(ids, world.Identity(outsider))
+				ids = append(ids, idOf(outsider))
 				shape = "first-of-two"
 			case 2:
-				ids = append([]age.Identity{world.Identity(outsider)}, ids...)
+				ids = append([]age.Identity{idOf(outsider)}, ids...)
 				shape = "last-of-two"
 			}
 			c.Stats.Inc("probe.identity_list_" + shape)
